@@ -203,6 +203,13 @@ func main() {
 			defer wg.Done()
 			sargs := solverArgs(*z3bin)
 			solver := NewSolver(*z3bin, sargs...)
+			// portfolio partner for assertion queries the primary cannot decide
+			switch {
+			case strings.Contains(*z3bin, "z3-new"):
+				solver.fallbackBin, solver.fallbackArgs = "z3", solverArgs("z3")
+			case strings.HasSuffix(*z3bin, "z3"):
+				solver.fallbackBin, solver.fallbackArgs = "z3-new", solverArgs("z3-new")
+			}
 			if *smtlog != "" && w == 0 {
 				f, _ := os.Create(*smtlog)
 				solver.log = f
@@ -215,7 +222,7 @@ func main() {
 					fmt.Fprintf(os.Stderr, "solver: prep %v check %v model %v total %v\n", solver.TPrep, solver.TCheck, solver.TModel, solver.Time)
 				}
 				sh.mu.Unlock()
-				solver.Close()
+				solver.CloseAll()
 			}()
 			worker(conf, sh, solver, *maxFan)
 		}(w)
